@@ -17,6 +17,9 @@ def _patch():
         def reg(self):
             orig(self)
             F.finalize_models(self)
+            from ..contracts import argreduce as AR
+
+            AR.argreduce_models(self)
 
         P.Prims.register_defaults = reg
         P.Prims._fin_models = True
